@@ -408,9 +408,12 @@ pub fn make_checks(prop: &str, rng: &mut Rng, env: &GenEnv) -> (Vec<Check>, Stri
                         // the panic is caught and the context dropped under the guard allocator
                         let mut cf = c.clone();
                         cf.program = rng.pick(&["+.", ",.", ">+<-.", "-[.-]", "+[>+<-]>."]).to_string();
-                        let exp = if rng.coin() { rng.range(58, 62) } else { rng.range(44, 62) };
+                        let exp = if rng.coin() { rng.range(60, 62) } else { rng.range(44, 62) };
                         let d = (1i64 << exp) + *rng.pick(&[0i64, 1, -1, 4096]);
                         cf.far_move = Some(if rng.coin() { d } else { -d });
+                        // the context owns a tape already
+                        cf.pregrow = Some((rng.range(0, 40), rng.range(1, 2000)));
+                        cf.alloc.fail_at = None;
                         out.push(mk(prop, Kind::AllocFail, cf, env));
                     }
                 }
